@@ -359,11 +359,113 @@ func c03HookSub(name, dir string) *engine.Sub {
 	}
 }
 
+type c03SeqCase struct {
+	Pols [][]int `json:"pols"`
+	Args int     `json:"args"`
+	Seq  []int   `json:"seq"` // -1 = ExecutionAllowed, h>=0 = ExecutionAllowedWithArgsHook returning argument map h
+}
+
+func (c *c03SeqCase) Weight() int { return len(c.Seq) + len(c.Pols) }
+
+// c03SeqSub: histories on ONE token value. Every check must be decided on the
+// arguments of that call, whatever was checked before on the same token.
+func c03SeqSub(name, dir string) *engine.Sub {
+	return &engine.Sub{
+		Name: name,
+		Rule: "sequences of two (quick) or three (thorough) authorization checks on the SAME invocation token, each check being ExecutionAllowed or ExecutionAllowedWithArgsHook with one of 8 hook-returned argument maps: every check's verdict must be the one the reference gives for the arguments effective in that call (no memo of arguments or verdicts across calls); non-trivial = sequences whose effective arguments differ between calls",
+		Bound: func(t string) string {
+			return fmt.Sprintf("1 link with 73 policies (+2 links with <=1 statement each), 8 token argument maps, all sequences of %d checks out of 9", tierN(t, 2, 3))
+		},
+		Setup: func(string) error { c03Init(); return nil },
+		Gen: func(tier string, emit func(any) bool) {
+			n := tierN(tier, 2, 3)
+			var polSets [][][]int
+			for _, p := range c03.policies {
+				polSets = append(polSets, [][]int{p})
+			}
+			for p0 := 0; p0 < 9; p0++ {
+				for p1 := 0; p1 < 9; p1++ {
+					polSets = append(polSets, [][]int{c03.policies[p0], c03.policies[p1]})
+				}
+			}
+			for _, ps := range polSets {
+				for a := 0; a < 8; a++ {
+					seq := make([]int, n)
+					for i := range seq {
+						seq[i] = -1
+					}
+					for {
+						if !emit(&c03SeqCase{Pols: ps, Args: a, Seq: append([]int{}, seq...)}) {
+							return
+						}
+						i := n - 1
+						for i >= 0 {
+							seq[i]++
+							if seq[i] < 8 {
+								break
+							}
+							seq[i] = -1
+							i--
+						}
+						if i < 0 {
+							break
+						}
+					}
+				}
+			}
+		},
+		NewCase: func() any { return &c03SeqCase{} },
+		Run: func(ctx *engine.Ctx, c any) {
+			cs := c.(*c03SeqCase)
+			n := len(cs.Pols)
+			ld := &sliceLoader{}
+			prf := make([]cid.Cid, n)
+			for i := 0; i < n; i++ {
+				ld.cids = append(ld.cids, cidPool[i])
+				ld.toks = append(ld.toks, mustDlg(alignedHolder(n, i+1), alignedHolder(n, i), 0, "/a", c03Policy(cs.Pols[i])))
+				prf[i] = cidPool[i]
+			}
+			inv, err := invocation.New(prin(alignedHolder(n, 0)), prin(0), "/a", prf,
+				invocation.WithNonce(fixedNonce), invocation.WithoutInvokedAt(), invocation.WithArguments(c03Args(cs.Args)))
+			if err != nil {
+				panic(err)
+			}
+			ctx.States(1)
+			distinct := map[int]bool{}
+			for k, step := range cs.Seq {
+				eff := cs.Args
+				var e error
+				if step < 0 {
+					e = inv.ExecutionAllowed(ld)
+				} else {
+					eff = step
+					h := step
+					e = inv.ExecutionAllowedWithArgsHook(ld, func(args.ReadOnly) (*args.Args, error) { return c03Args(h), nil })
+				}
+				distinct[eff] = true
+				ctx.Eval(1)
+				ctx.Trans(1)
+				ctx.Outcome(errLabel(e))
+				want, li, sj := c03Ref(cs.Pols, eff)
+				if dir == "sound" && e == nil && !want {
+					ctx.Failf(cs, "stale-arguments/allowed-on-earlier-arguments", "check #%d of sequence %v on one token (token args %s) is allowed although statement %d of link %d fails on the arguments of this call (%s)", k, cs.Seq, c03.argText[cs.Args], sj, li, c03.argText[eff])
+				}
+				if dir == "complete" && e != nil && want {
+					ctx.Failf(cs, "stale-arguments/denied-on-earlier-arguments", "check #%d of sequence %v on one token is denied although the arguments of this call (%s) satisfy every statement: %v", k, cs.Seq, c03.argText[eff], e)
+				}
+			}
+			if len(distinct) > 1 {
+				ctx.Nontrivial(1)
+			}
+		},
+	}
+}
+
 func C03() *engine.Check {
 	return &engine.Check{
 		Property: "C03",
 		Level:    "model_checking",
-		Subs:     []*engine.Sub{c03Sub("policy-aggregation", "sound"), c03HookSub("args-hook", "sound")},
+		Subs:     []*engine.Sub{c03Sub("policy-aggregation", "sound"), c03HookSub("args-hook", "sound"), c03SeqSub("same-token-sequences", "sound")},
 		Assumptions: []string{
 			"statement semantics are taken from the real single-statement Policy.Match (C11 decides those); C03 decides aggregation over links and statements",
 			"principals aligned, commands equal, no time bounds: only the policy stage can deny",
